@@ -64,6 +64,13 @@ struct Gen {
 		if (i >= 1 && i <= 5 && r.chance(0.5)) v = v / 2 + r.below(v);
 		return v;
 	}
+	// a number that differs from n, but not in what a conversion to int keeps
+	JV near_num(double n) {
+		if (n >= 2147483647.0) return JV::num(n + 1 + (double)r.below(3));
+		double fl = (double)(long long)n;
+		if (n != fl) return JV::num(r.chance(0.5) ? fl : fl + (n - fl > 0.5 ? 0.25 : 0.75));
+		return JV::num(n + (r.chance(0.5) ? 0.5 : 0.25));
+	}
 	JV next_id() {
 		idctr++;
 		if (r.chance(p_numid)) return JV::num((double)(1000 + idctr));
@@ -259,6 +266,9 @@ struct Gen {
 		} else if (k == "fetch") {
 			JV fid = r.chance(0.5) ? JV::str("f" + std::to_string(++idctr)) : JV::num((double)(++idctr));
 			if (!g->fetch_ids.empty() && r.chance(0.08)) fid = g->fetch_ids[r.below(g->fetch_ids.size())];
+			// numeric ids that differ from one in use only behind the decimal point, or only beyond the range of an int: distinct ids
+			else if (!g->fetch_ids.empty() && r.chance(0.12)) { const JV &o = g->fetch_ids[r.below(g->fetch_ids.size())]; if (o.t == JV::Num) fid = near_num(o.d); }
+			else if (fid.t == JV::Num && r.chance(0.1)) fid = JV::num(r.chance(0.5) ? fid.d + 0.5 : 2147483648.0 + fid.d);
 			params.set("id", fid);
 			if (r.chance(p_adv_rule)) { JV ru = adv_rule(); params.set("path", r.chance(0.03) ? JV::str("a") : ru); }
 			else if (r.chance(0.6)) params.set("path", rule());
@@ -266,6 +276,7 @@ struct Gen {
 			g->fetch_ids.push_back(fid);
 		} else if (k == "unfetch") {
 			JV fid = g->fetch_ids.empty() || r.chance(0.1) ? JV::str("nofetch") : g->fetch_ids[r.below(g->fetch_ids.size())];
+			if (fid.t == JV::Num && r.chance(0.15)) fid = near_num(fid.d);   // an id that was never fetched, although its integer part was
 			params.set("id", fid); msg = request("unfetch", params);
 		} else if (k == "get") {
 			if (r.chance(p_adv_rule)) params.set("path", adv_rule());
@@ -1139,7 +1150,7 @@ Plan gen_c09(const std::string &profile, uint64_t seed, const JV &opts) {
 	int nclients = 1 + (int)r.below(4);
 	int maxmsg = g_variant.max_message;
 	for (int i = 0; i < nclients; i++) {
-		GClient gc; gc.c = g.next_client++; gc.tr = r.chance(0.35) ? "ws" : r.chance(0.15) ? "uds" : "raw";
+		GClient gc; gc.c = g.next_client++; gc.tr = r.chance(0.35) ? "ws" : r.chance(0.3) ? "uds" : "raw";
 		Op o = g.mk("connect", gc.c); o.a.set("tr", JV::str(gc.tr)); o.a.set("ip", JV::str(r.chance(0.8) ? "127.0.0.1" : "::1"));
 		JV pol = JV::obj(); static const char *modes[] = {"result", "result", "error", "never"}; pol.set("mode", JV::str(modes[r.below(4)]));
 		static const uint64_t dl[] = {500, 1500, 500500, 4999999500ULL, 5000000500ULL}; pol.set("delay", JV::num((double)dl[r.below(r.chance(0.8) ? 3 : 5)]));
@@ -1150,7 +1161,8 @@ Plan gen_c09(const std::string &profile, uint64_t seed, const JV &opts) {
 	for (int i = 0; i < nops; i++) {
 		GClient *gc = g.alive_client(); if (!gc) break;
 		double x = r.unit();
-		if (x < 0.04) { Op o = g.mk("close", gc->c); o.a.set("how", JV::str("fin")); o.dt = dt(); g.p.ops.push_back(o); gc->alive = false; for (auto it = g.owner_of.begin(); it != g.owner_of.end();) if (it->second == gc->c) it = g.owner_of.erase(it); else ++it; continue; }
+		// a peer on the local socket that closes is reported as readable + hang-up (that is what Linux does for AF_UNIX), a TCP peer as readable only
+		if (x < 0.04 || (gc->tr == "uds" && x < 0.09)) { Op o = g.mk("close", gc->c); o.a.set("how", JV::str(gc->tr == "uds" ? "hup" : "fin")); o.dt = r.chance(0.5) ? 0 : dt(); g.p.ops.push_back(o); gc->alive = false; for (auto it = g.owner_of.begin(); it != g.owner_of.end();) if (it->second == gc->c) it = g.owner_of.erase(it); else ++it; continue; }
 		if (x < 0.55) { size_t before = g.p.ops.size(); g.op_request(); for (size_t k = before; k < g.p.ops.size(); k++) { g.p.ops[k].dt = dt(); g.p.ops[k].hold = false; } continue; }
 		Op o = g.mk("send", gc->c);
 		bool raw = gc->tr != "ws";
@@ -1505,7 +1517,7 @@ Plan derive_b(const Plan &a) {
 			add_seg(o, r);
 			o.hold = false;
 			// the bytes of a connection's last message and its FIN may be reported by one readiness event
-			bool with_fin = i + 1 < a.ops.size() && a.ops[i + 1].k == "close" && a.ops[i + 1].c == o.c && a.ops[i + 1].dt == 0 && a.ops[i + 1].a.gets("how", "fin") == "fin" && r.chance(0.6);
+			bool with_fin = i + 1 < a.ops.size() && a.ops[i + 1].k == "close" && a.ops[i + 1].c == o.c && a.ops[i + 1].dt == 0 && (a.ops[i + 1].a.gets("how", "fin") == "fin" || a.ops[i + 1].a.gets("how", "fin") == "hup") && r.chance(0.6);
 			if (with_fin) { o.hold = true; o.a.put("seg", JV()); o.a.put("gap", JV::num(0)); }
 			b.ops.push_back(o);
 			if (with_fin) continue;
